@@ -37,16 +37,23 @@ class EditableTable(object):
         self.version = 0
         self.pulls = 0
         self.iters = 0
+        self.armed = None     # item index at which the NEXT iterator raises (transient failure), then disarmed
 
     def __iter__(self):
         self.iters += 1
         snapshot = [self.header] + list(self.rows)
-        return self._gen(snapshot)
+        fail, self.armed = self.armed, None
+        return self._gen(snapshot, fail)
 
-    def _gen(self, snapshot):
-        for r in snapshot:
+    def _gen(self, snapshot, fail=None):
+        for i, r in enumerate(snapshot):
+            if fail is not None and i >= fail:
+                raise FailingTable.Boom('injected transient failure at item %d' % i)
             self.pulls += 1
             yield r
+
+    def arm(self, pos=None):
+        self.armed = len(self.rows) if pos is None else pos
 
     def edit(self, fn):
         fn(self.rows)
